@@ -31,16 +31,13 @@ Definition pivots_eqb : list (nat * nat) -> list (nat * nat) -> bool :=
 (* |a - b| <= tol * (1 + |a|) *)
 Definition close (tol a b : Q) : bool := Qleb (Qabs (a - b)) (tol * (1 + Qabs a)).
 
-(* model (run with `eps`) against the implementation: status, pivot sequence, iteration count
-   (not when the answer is MAX_ITER), and for OPTIMAL the point and the objective *)
+(* model (run with `eps`) against the implementation: status, pivot sequence, iteration count,
+   and for OPTIMAL the point and the objective *)
 Definition corr_check (eps tol : Q) (k : lp_case) : bool :=
   let r := run_case eps k in
   status_eqb (r_status r) (k_status k)
   && pivots_eqb (r_pivots r) (k_pivots k)
-  && match r_status r with
-     | MAX_ITER => true
-     | _ => Nat.eqb (r_iterations r) (k_iters k)
-     end
+  && Nat.eqb (r_iterations r) (k_iters k)
   && match r_status r with
      | OPTIMAL => list_eqb (close tol) (r_solution r) (k_sol k) && close tol (r_objective r) (k_obj k)
      | _ => true
